@@ -341,3 +341,35 @@ pub fn tuples(k: usize, n: usize) -> Vec<Vec<usize>> {
     }
     cur
 }
+
+/// Sizes straddling powers of two (internal block / cap constants live there).
+pub const LADDER: [usize; 7] = [255, 256, 257, 1023, 1024, 1025, 4097];
+
+/// Large shapes: one long part (after a short one where the type has parts)
+/// for every ladder size, and many short parts for the sizes <= 1025.
+pub fn ladder(ty: Ty) -> Vec<MShape> {
+    let mut out = vec![];
+    let big = |start: usize, n: usize| -> Vec<P4> {
+        // pairwise distinct dyadic coordinates, no ring closure by accident
+        (0..n).map(|i| { let k = (start + i) as f64; [k * 0.5, 3.0 - k * 0.25, 100.0 + k, 1000.0 + k * 0.125] }).collect()
+    };
+    match ty.family() {
+        Family::Null | Family::Point => {}
+        Family::Multipoint => {
+            for n in LADDER {
+                out.push(MShape { ty, parts: vec![MPart { kind: 0, pts: big(0, n) }] });
+            }
+        }
+        fam => {
+            let k_first = if fam == Family::Multipatch { 2 } else { 0 };
+            let k_big = if fam == Family::Multipatch { 0 } else if fam == Family::Polygon { 1 } else { 0 };
+            for n in LADDER {
+                out.push(MShape { ty, parts: vec![MPart { kind: k_first, pts: big(0, 3) }, MPart { kind: k_big, pts: big(3, n) }, MPart { kind: k_first, pts: big(3 + n, 2) }] });
+            }
+            for p in [1023usize, 1024, 1025] {
+                out.push(MShape { ty, parts: (0..p).map(|i| MPart { kind: if fam == Family::Multipatch { (i % 6) as u8 } else { (i % 2) as u8 * (fam == Family::Polygon) as u8 }, pts: big(i * 2, 2) }).collect() });
+            }
+        }
+    }
+    out
+}
